@@ -283,7 +283,12 @@ class TokenMutations(object):
                 allowed = set(lineof(tb, ob[k]) for k in K)
                 if ra[2] >= lineof(ta, len(ta)) - 1:
                     allowed |= set([lineof(tb, len(tb)), lineof(tb, len(tb)) - 1])
-                if allowed and rb[2] not in allowed:
+                exact = not any(t.startswith(mibspec.RAW) or t in ('MACRO', 'CHOICE', 'EXPORTS') for t in toks)
+                if exact and not K and ra[2] < lineof(ta, len(ta)) - 1:
+                    # the token list is exactly what the lexer sees: an error must name the line on which a token starts
+                    vs.append(('%s|lineno-is-not-the-first-line-of-any-token' % sig,
+                               'tokens %r\nlayout A %r -> %r' % (toks, ta, ra)))
+                elif allowed and rb[2] not in allowed:
                     vs.append(('%s|lineno-names-different-token' % sig,
                                'tokens %r\nlayout A %r -> %r (token index %r)\nlayout B %r -> %r, expected line in %r' % (
                                    toks, ta, ra, K, tb, rb, sorted(allowed))))
